@@ -372,7 +372,7 @@ pub fn stress_sources() -> Vec<(String, String)> {
     v.push(("allocation-multiplicity".into(), "let v = object begin function who() -> 1; end;\nlet n = 0;\nwhile n < 4 do begin\n  let a = array(n, object begin end);\n  let b = array(n, object begin function m() -> 1; end);\n  let c = array(n, object extends v begin function k() -> 2; end);\n  let d = array(n, object extends 5 begin end);\n  let e = array(n, array(0, 0));\n  let f = array(n, array(2, n));\n  let g = array(n, object begin let s = n; end);\n  let h = array(n, v);\n  let i = array(n, null);\n  print(\"~ ~ ~ ~ ~ ~ ~ ~ ~\\n\", a, b, c, d, e, f, g, h, i);\n  n <- n + 1\nend;\nlet two = array(2, object begin function m() -> 1; end);\nprint(\"~\\n\", two);\n".into()));
     // several hidden temporaries alive at once: compound array initializers nested three deep, inside methods, inside object
     // literals that are arguments, with `let` inside the sizes
-    v.push(("nested-temporaries".into(), "function id(x) -> x;\nlet o = object begin\n  let base = 3;\n  function k(n) -> n * 2 + this.base;\n  function build(n) -> id(array(n, array(n, begin let t = array(n, this.k(n)); t[0] <- t[0] + 1; t end)));\n  function sizes() -> array(let a = 2, array(let b = a + 1, array(let c = b + 1, a * 100 + b * 10 + c)));\nend;\nprint(\"~\\n\", id(object begin function make() -> array(2, array(2, array(2, begin 7 end))); end).make());\nprint(\"~\\n\", o.build(2));\nprint(\"~\\n\", o.sizes());\nlet grid = array(2, array(3, array(2, object begin let v = 0; end)));\ngrid[1][2][0].v <- 5;\nprint(\"~\\n\", grid);\nprint(\"~\\n\", id(array(2, id(array(2, id(array(1, id(4))))))));\nfunction twice() -> array(2, array(2, twice2()));\nfunction twice2() -> array(1, array(1, 9));\nprint(\"~ ~\\n\", twice(), array(array(2, 1)[0] + 1, array(1, 1)[0]));\n".into()));
+    v.push(("nested-temporaries".into(), "function id(x) -> x;\nlet o = object begin\n  let base = 3;\n  function k(n) -> n * 2 + this.base;\n  function build(n) -> id(array(n, array(n, begin let t = array(n, this.k(n)); t[0] <- t[0] + 1; t end)));\n  function sizes() -> array(let a = 2, array(let b = a + 1, array(let c = b + 1, a * 100 + b * 10 + c)));\nend;\nprint(\"~\\n\", id(object begin function make() -> array(2, array(2, array(2, begin 7 end))); end).make());\nprint(\"~\\n\", o.build(2));\nprint(\"~\\n\", o.sizes());\nlet grid = array(2, array(3, array(2, object begin let v = 0; end)));\ngrid[1][2][0].v <- 5;\nprint(\"~\\n\", grid);\nprint(\"~\\n\", id(array(2, id(array(2, id(array(1, id(4))))))));\nfunction twice() -> array(2, array(2, twice2()));\nfunction twice2() -> array(1, array(1, 9));\nprint(\"~ ~\\n\", twice(), array(array(2, 1)[0] + 1, array(1, 1)[0]));\nfunction sz() -> array(array(2, begin 1 end)[0] + 1, begin 5 end);\nprint(\"~ ~\\n\", sz(), array(array(array(1, begin 2 end)[0], begin 3 end)[1], begin 4 end));\nlet m = object begin function sz(k) -> array(array(k, begin k end)[0], array(array(1, begin k end)[0], begin this end)[0] == null); function ==(o) -> false; end;\nprint(\"~\\n\", m.sz(2));\n".into()));
     // more than 256 hidden temporaries in one function (140 compound array initializers), more than 256 locals in a method
     // spread over nested blocks, more than 256 parameters-plus-locals in one frame
     let mut t = String::from("function many(k) -> begin\nlet acc = 0;\n");
@@ -430,6 +430,25 @@ pub fn stress_sources() -> Vec<(String, String)> {
         "long-distinct-elements".into(),
         "let c = 0;\nlet a = array(70000, object begin let id = c <- c + 1; end);\nprint(\"~ ~ ~ ~ ~\\n\", a[0].id, a[65535].id, a[65536].id, a[69999].id, c);\na[65536].id <- 0 - 1;\nprint(\"~ ~ ~\\n\", a[65535], a[65536], a[65537]);\n".into(),
     ));
+    v
+}
+
+/// More blocks in one frame than a 16-bit counter can number: 65 540 sibling blocks in a function body, in a method
+/// body and at the top level; a `let` in the blocks after the 65 536th must still end with its block. (Kept apart
+/// from the stress shapes: the source is about a megabyte and only the scoping checks need it.)
+pub fn scope_capacity_sources() -> Vec<(String, String)> {
+    let mut v = Vec::new();
+    let blocks = "begin 1 end;\n".repeat(65_534);
+    let tail = "begin let z = 5; z end;\nbegin let z = 6; z end;\nbegin let z = 7; begin let z = 8; z end end;\nbegin let y = 9; y end;\n";
+    v.push((
+        "blocks-65540-in-a-function".to_string(),
+        format!("let z = 1;\nlet y = 2;\nfunction f() -> begin\n{}{}z * 10 + y end;\nprint(\"~\\n\", f());\n", blocks, tail),
+    ));
+    v.push((
+        "blocks-65540-in-a-method".to_string(),
+        format!("let z = 1;\nlet y = 2;\nlet o = object begin function m(p) -> begin\n{}{}z * 10 + y + p end; end;\nprint(\"~\\n\", o.m(100));\n", blocks, tail),
+    ));
+    v.push(("blocks-65540-at-top-level".to_string(), format!("let z = 1;\nlet y = 2;\nbegin\n{}{}print(\"~\\n\", z * 10 + y) end;\n", blocks, tail)));
     v
 }
 
